@@ -522,6 +522,7 @@ pub struct Sim<'p> {
     log: LogHash,
     want_excerpt: bool,
     excerpt: VecDeque<String>,
+    excerpt_cap: usize,
     pub stats: Stats,
     pub out: MonOut,
     start: u64,
@@ -554,7 +555,7 @@ impl<'p> Sim<'p> {
 
     fn logline(&mut self, s: impl FnOnce() -> String) {
         if self.want_excerpt {
-            if self.excerpt.len() >= 400 {
+            if self.excerpt.len() >= self.excerpt_cap {
                 self.excerpt.pop_front();
             }
             let l = s();
@@ -661,6 +662,7 @@ impl<'p> Sim<'p> {
             log: LogHash::default(),
             want_excerpt,
             excerpt: VecDeque::new(),
+            excerpt_cap: if std::env::var("VERIF_EXCERPT_ALL").is_ok() { 2_000_000 } else { 400 },
             stats: Stats::default(),
             out: MonOut::default(),
             start,
